@@ -314,11 +314,11 @@ def oracle_cc(v, out):
 def oracle_qs(ln, s, out):
     s = s.split(b"\0")[0]
     if ln != len(s):
-        # a shorter window: success must still be one of the texts a window could produce; only sanity here
+        # a shorter window than the text: only sanity (no CTL other than HTAB can come out of a quoted-string)
         if out.startswith("ok"):
             got = unhx(out.split()[1])
-            if any(c in (0x22, 0x5c, 0x7f) or c < 0x20 for c in got):
-                return ("oracle:qs-charset", "result contains a byte that cannot come out of a quoted-string: %r" % got)
+            if any(c == 0x7f or (c < 0x20 and c != 9) for c in got):
+                return ("oracle:qs-charset", "result contains a control byte that cannot come out of a quoted-string: %r" % got)
         return None
     st, txt = quoted(s)
     if st == "unclear":
